@@ -2,6 +2,7 @@ package main
 
 import (
 	"fmt"
+	"github.com/ipld/go-ipld-prime/datamodel"
 	"strconv"
 	"strings"
 	"unicode"
@@ -64,14 +65,46 @@ func goSelect(text, node string) (out string) {
 	if err != nil {
 		return "bad-node " + err.Error()
 	}
-	res, err := sel.Select(n)
-	if err != nil {
-		return "err"
+	once := func() string {
+		res, err := sel.Select(n)
+		if err != nil {
+			return "err"
+		}
+		if res == nil {
+			return "none"
+		}
+		return "ok " + dumpNode(res)
 	}
-	if res == nil {
-		return "none"
+	r1 := once()
+	// history: a second parse of the same text is first applied to values of other kinds and lengths, and only
+	// then to this value: a parsed selector is not changed by being used
+	if sel2, err := selector.Parse(text); err == nil {
+		func() {
+			defer func() { recover() }()
+			for _, pn := range selProbes() {
+				sel2.Select(pn)
+			}
+		}()
+		sel = sel2
+		if r2 := once(); r2 != r1 {
+			return "history: fresh=" + r1 + " after-other-values=" + r2
+		}
 	}
-	return "ok " + dumpNode(res)
+	return r1
+}
+
+var selProbeNodes []datamodel.Node
+
+func selProbes() []datamodel.Node {
+	if selProbeNodes == nil {
+		for _, d := range []string{"l()", "l(i1)", "l(i1,i2,i3)", "l(i1,i2,i3,i4,i5,i6,i7)", "s", "s616263646566", "b", "b0102030405", "m()", "m(61:l(i1,i2,i3,i4))", "n",
+			"m(61:m(61:i1,62:l(i1,i2)),:i9,62:l(i10,i20,i30))"} {
+			if n, err := parseNode(d); err == nil {
+				selProbeNodes = append(selProbeNodes, n)
+			}
+		}
+	}
+	return selProbeNodes
 }
 
 func goParseSel(text string) (out string) {
@@ -145,6 +178,8 @@ var selValues = []string{
 	"l(i1,s78,l(i2,i3))", "l()", "m(61:m(61:i1,62:l(i1,i2)),:i9,62:l(i10,i20,i30))", "m()",
 	"l(m(61:i1),m(61:i2,62:i3))", "m(7a7a:n,61:l())", "m(61:s616263,62:b0a0b0c)", "l(n,n)", "m(61:n)",
 	"sff", "se282acc0af41", // invalid UTF-8 only; a valid 3-byte rune followed by an overlong form and a letter
+	"s" + strings.Repeat("c3a9", 24),                  // 24 two-byte characters: 48 bytes, byte length ≠ character count, beyond any small buffer
+	"s61" + strings.Repeat("e282ac", 15) + "f09f9880", // 1-, 3- and 4-byte characters mixed, 50 bytes
 }
 
 // selClass abbreviates the shape of a selector (one letter per segment, "?" when optional) so that
